@@ -4,10 +4,9 @@ import PoxModel.Base.Bytes
 `step (.arrive …)` = the buffering + `send_packet_in` of a table miss (`rx_packet`, :518-526) or of an output:CONTROLLER action
 (`_output_packet`, :669-673, `send_packet_in` :418-436) — with `total_len` the length of the whole frame (repair D19).
 
-Assumed (stated in the evidence): the action list a release runs does not RAISE.  `_process_actions_for_packet_from_buffer`
-clears the slot AFTER `_process_actions_for_packet` returns, without try/finally: an action handler that raised half-way
-would leave the slot occupied and the id usable again.  Whether an action can raise on a well-formed request is C12's
-subject (its theorems and harness say no); `useStep` models the non-raising path only.
+A release whose action list RAISES part way (a physical output failing): `_process_actions_for_packet_from_buffer` clears the
+slot in a `finally` (repair C11-K3), so the buffer is released all the same — for the pool that is the arrivals of the buffering
+outputs that ran before the failure, then `.drop id` (Properties/C18.lean `list_release`; harness op `acts` with a `fault`).
 
 `alloc p (fr, port)` stores the VALUE of the frame at that moment.  The code stores a packet OBJECT: the one `rx_packet` was
 given for a table miss, and (repair C18-2) a private copy for everything buffered from inside an action list (output:CONTROLLER,
